@@ -242,10 +242,49 @@ def rule_bootstrap(ctx):
                               f"`create database db2; use schema db2.s; select equal_null(1,1)` fails (function does not exist)")
 
 
+def rule_macros(ctx):
+    """C10.e: EQUAL_NULL's macro body evaluated three-valued over the complete abstract domain {NULL, x, y}^2."""
+    import re
+
+    from .. import sqleval, sqlt
+
+    prog = ctx.prog
+    m = prog.mod("macros")
+    n = 0
+    for k, v in m.consts.items():
+        if not (isinstance(v, ast.Call) and v.args and isinstance(v.args[0], ast.Constant) and isinstance(v.args[0].value, str)):
+            continue
+        txt = v.args[0].value
+        mt = re.search(r"create\s+(?:or\s+replace\s+)?macro\s+(?:if\s+not\s+exists\s+)?\$\{catalog\}\.(\w+)\s*\(([^)]*)\)\s+as\s+(.*?);", txt, re.I | re.S)
+        if not mt or mt.group(1).lower() != "equal_null":
+            continue
+        params = [p.strip().lower() for p in mt.group(2).split(",")]
+        body = sqlt.tokenize(mt.group(3))
+        bad = []
+        try:
+            for a in (None, "x", "y"):
+                for b in (None, "x", "y"):
+                    want = (a is None and b is None) or (a is not None and b is not None and a == b)
+                    got = sqleval.evaluate(body, dict(zip(params, (a, b))))
+                    n += 1
+                    if got is not want:
+                        bad.append(f"equal_null({a or 'NULL'}, {b or 'NULL'}) = {'NULL' if got is None else got}, expected {want}")
+        except sqleval.Unsupported as e:
+            ctx.ob("C10.e", "EQUAL_NULL macro body readable", None, m.loc(m.const_stmts[k]), str(e))
+            continue
+        ctx.ob("C10.e", "EQUAL_NULL(a, b) is TRUE iff both NULL or equal, FALSE otherwise, never NULL (9 argument classes)", not bad,
+               m.loc(m.const_stmts[k]), "; ".join(bad[:3]))
+        if bad:
+            ctx.violation("C10.e", "macros", k, "EQUAL_NULL truth table", m.loc(m.const_stmts[k]),
+                          f"the EQUAL_NULL macro body `{mt.group(3).strip()[:80]}` is not NULL-safe equality: {'; '.join(bad[:3])}")
+    ctx.floor("EQUAL_NULL argument classes evaluated", n, 9)
+
+
 from .c10_wiring import rule_wiring  # noqa: E402
 
 RULES = [
     ("C10.d", rule_wiring, ("quick", "thorough")),
+    ("C10.e", rule_macros, ("quick", "thorough")),
     ("C10.a", rule_order, ("quick", "thorough")),
     ("C10.b", rule_side_channel, ("quick", "thorough")),
     ("C10.c", rule_bootstrap, ("quick", "thorough")),
